@@ -32,8 +32,13 @@ def rand_case(r, overlap=False):
             continue
         tn = [t for t in __import__("re").findall(r"\{([^}]*)\}", path)]
         params = [{"name": t, "in": "path", "level": r.choice(["op", "path"]), "type": r.choice(["string", "integer"])} for t in tn]
-        if r.random() < 0.5:
-            params.append({"name": r.choice(["q", "limit", "X-Trace"]), "in": r.choice(["query", "header"]), "level": "op", "type": "string", "required": r.random() < 0.3})
+        seenp = set()
+        for _ in range(r.randint(0, 3)):
+            nm, loc = r.choice(["q", "limit", "verbose", "X-Trace", "X-Request-Id"]), r.choice(["query", "header"])
+            lvl = r.choice(["op", "path"])
+            if (nm, loc) not in seenp:
+                seenp.add((nm, loc))
+                params.append({"name": nm, "in": loc, "level": lvl, "type": "string", "required": r.random() < 0.3})
         body = None
         if m in ("post", "put", "patch") and r.random() < 0.6:
             body = {"content": [[r.choice(["application/json", "text/plain", "application/x-www-form-urlencoded", "application/octet-stream"]), r.choice(["ref:Pet", "string"])]], "required": r.random() < 0.5}
